@@ -379,9 +379,17 @@ fn exb(rep: &mut Rep, rel: &str, got: &BoxedUint, want: &BigUint, limbs: usize) 
 /// Operator-style boxed op: returned value must be the exact result (no silent wrap); a panic is
 /// only allowed when the true result does not fit the receiver.
 fn boxed_op(rep: &mut Rep, rel: &str, want: &BigInt, recv_limbs: usize, rhs_limbs: usize, f: impl FnOnce() -> BoxedUint) {
+    boxed_op_(rep, rel, want, recv_limbs, rhs_limbs, true, f)
+}
+
+/// `wider_rhs_may_panic`: the assigning forms and the boxed-with-fixed / boxed-with-primitive forms
+/// work in place and document a panic for a right-hand side of larger precision than the receiver.
+/// The non-assigning BoxedUint-BoxedUint operators widen to the wider operand (`checked_add` /
+/// `checked_sub`), so for them a panic although the result fits the receiver is a violation.
+fn boxed_op_(rep: &mut Rep, rel: &str, want: &BigInt, recv_limbs: usize, rhs_limbs: usize, wider_rhs_may_panic: bool, f: impl FnOnce() -> BoxedUint) {
     // a right-hand side of larger precision than the receiver may be refused (documented panic of
     // the in-place primitives); what may never happen is a silently wrong value.
-    let out_of_range = rhs_limbs > recv_limbs
+    let out_of_range = (wider_rhs_may_panic && rhs_limbs > recv_limbs)
         || want.sign() == num_bigint::Sign::Minus
         || !fits(&want.to_biguint().unwrap_or_default(), recv_limbs);
     match catch(f) {
@@ -503,10 +511,10 @@ fn c_boxed(c: &Case, rep: &mut Rep) {
     }
     // operators: exact value or panic (panic only if out of the receiver's range)
     let sw = BigInt::from(s0.clone());
-    boxed_op(rep, "boxed.op_add_val_val", &sw, nl, rl, || xa.clone() + xb.clone());
-    boxed_op(rep, "boxed.op_add_val_ref", &sw, nl, rl, || xa.clone() + &xb);
-    boxed_op(rep, "boxed.op_add_ref_val", &sw, nl, rl, || &xa + xb.clone());
-    boxed_op(rep, "boxed.op_add_ref_ref", &sw, nl, rl, || &xa + &xb);
+    boxed_op_(rep, "boxed.op_add_val_val", &sw, nl, rl, false, || xa.clone() + xb.clone());
+    boxed_op_(rep, "boxed.op_add_val_ref", &sw, nl, rl, false, || xa.clone() + &xb);
+    boxed_op_(rep, "boxed.op_add_ref_val", &sw, nl, rl, false, || &xa + xb.clone());
+    boxed_op_(rep, "boxed.op_add_ref_ref", &sw, nl, rl, false, || &xa + &xb);
     boxed_op(rep, "boxed.op_add_assign", &sw, nl, rl, || {
         let mut t = xa.clone();
         t += xb.clone();
@@ -517,10 +525,10 @@ fn c_boxed(c: &Case, rep: &mut Rep) {
         t += &xb;
         t
     });
-    boxed_op(rep, "boxed.op_sub_val_val", &d, nl, rl, || xa.clone() - xb.clone());
-    boxed_op(rep, "boxed.op_sub_val_ref", &d, nl, rl, || xa.clone() - &xb);
-    boxed_op(rep, "boxed.op_sub_ref_val", &d, nl, rl, || &xa - xb.clone());
-    boxed_op(rep, "boxed.op_sub_ref_ref", &d, nl, rl, || &xa - &xb);
+    boxed_op_(rep, "boxed.op_sub_val_val", &d, nl, rl, false, || xa.clone() - xb.clone());
+    boxed_op_(rep, "boxed.op_sub_val_ref", &d, nl, rl, false, || xa.clone() - &xb);
+    boxed_op_(rep, "boxed.op_sub_ref_val", &d, nl, rl, false, || &xa - xb.clone());
+    boxed_op_(rep, "boxed.op_sub_ref_ref", &d, nl, rl, false, || &xa - &xb);
     boxed_op(rep, "boxed.op_sub_assign", &d, nl, rl, || {
         let mut t = xa.clone();
         t -= xb.clone();
